@@ -22,7 +22,7 @@ Verdict(r) ==
   LET t == TreeOf(r)
       a == ArgsOfRec(r)
       ref == RefSet(t, a)
-      pred == IFiles(t, a)
+      pred == IFiles(t, a, r.cwdvia)
   IN [id |-> r.id,
       ieq |-> IF r.obs.vlines = pred /\ SeqSet(r.obs.changed) = SeqSet(pred) THEN "1" ELSE "0",
       viol |-> SetToSeq(
@@ -33,7 +33,7 @@ Verdict(r) ==
          \cup (IF r.obs.other = <<>> THEN {} ELSE {"NothingElse"})
          \cup (IF r.obs.exit = 0 THEN {} ELSE {"ExitZero"}))]
 
-TraceInit == l = 1 /\ verdicts = <<>> /\ tree = [top |-> {}, kids |-> [d \in DirNames |-> {}]] /\ args = <<>>
+TraceInit == l = 1 /\ verdicts = <<>> /\ tree = [top |-> {}, kids |-> [d \in DirNames |-> {}]] /\ args = <<>> /\ cwdvia = "w"
 TraceNext == l <= Len(Trace) /\ l' = l + 1 /\ verdicts' = Append(verdicts, Verdict(Trace[l])) /\ UNCHANGED vars
 TraceSpec == TraceInit /\ [][TraceNext]_<<vars, tvars>>
 Flush == (l = Len(Trace) + 1) => ndJsonSerialize(OutFile, verdicts)
